@@ -298,3 +298,20 @@ Lemma dead_needs_stable_nodes :
   /\ dead_of init_cache [] witness_dead = [(1, true)]
   /\ idx_mem 1 1 (on_node (hrun init_cache witness_dead)) = true.
 Proof. repeat split; vm_compute; reflexivity. Qed.
+
+(* OBSERVATION on the real code (findings/C05-node-migration-dangling-index.md): an informer Update
+   that moves an available reservation to another node ("case 1" of the scheduler-wide handler,
+   nodeName change).  Plugin listener first: the plugin re-indexes the reservation under the new
+   node, then the scheduler-wide handler deletes the ReservationInfo with the OLD object, so
+   matchableOnNode[new node] keeps a uid without ReservationInfo (ForEachMatchableReservationOnNode
+   hands nil to the plugin).  Scheduler-wide listener first: consistent.  Outside node stability. *)
+Definition mig_spec (n : Z) : rspec := mkSpec 1 n 1 false false 0 0 [] [(1, 4000)] [] false 0.
+Definition witness_migration (who : Z) : list hop :=
+  [ HInfAdd (mig_spec 1) 0; HInfUpdate (mig_spec 1) (mig_spec 2) who ].
+Lemma node_migration_dangling :
+  (let c := hrun init_cache (witness_migration 0) in
+   infos c = [] /\ idx_mem 2 1 (matchable c) = true /\ visit 2 c = [-1])
+  /\ (let c := hrun init_cache (witness_migration 1) in
+      map r_uid (infos c) = [1] /\ matchable c = [(2, [1])] /\ visit 2 c = [1])
+  /\ stable_along init_cache (witness_migration 0) = false.
+Proof. repeat split; vm_compute; reflexivity. Qed.
